@@ -273,6 +273,8 @@ static bool peek(int t, Op &op, bool consume) {
     case 'p': op.text = "postinc:" + num(a); break;
     case 'm': op.text = "max:" + num(a) + ":" + num(bb); break;
     case 'a': op.text = "lfadd:" + num(a) + ":" + num(bb); break;
+    case 's': op.text = "ctrsub:" + num(a) + ":" + num(bb); break; // AtomicValue::pre_subtract (not an operation of the model: oracle only)
+    case 'e': op.text = "ctradd:" + num(a) + ":" + num(bb); break; // AtomicValue::pre_add
     case 'A': op.text = "add:" + num(a) + ":" + num(bb); break;
     case 'T': op.text = "gettask:" + num(a); break;
     case 'Y': op.text = "trygettask:" + num(a); break;
@@ -335,6 +337,8 @@ static void perform(int t, const Op &op) {
     break;
   case 'i': ret = num(ctr[op.a].pre_increment()); break;
   case 'p': ret = num(ctr[op.a].post_increment()); break;
+  case 's': ret = num(ctr[op.a].pre_subtract((size_t)op.b)); break;
+  case 'e': ret = num(ctr[op.a].pre_add((size_t)op.b)); break;
   case 'm': mxc[op.a].max((size_t)op.b); break;
   case 'a': LockFree::add(lfc[op.a], (size_t)op.b); break;
   case 'A': queues[op.a]->add_task(op.b); break;
